@@ -109,6 +109,11 @@ fn build_pipeline(rng: &mut Rng, trial: u64, kinds: &[BodyKind]) -> Vec<u8> {
     for (i, k) in kinds.iter().enumerate() {
         let method = if *k == BodyKind::None { "GET" } else { "POST" };
         let mut head = format!("{} /r/{:x}/{} HTTP/1.1\r\nHost: h\r\n", method, trial, i);
+        // now and then a repeated Connection field (only its first line counts for the library);
+        // the request stays an ordinary, persistent one
+        if rng.chance(1, 8) {
+            head.push_str(rng.pick_s(&["Connection: keep-alive\r\nConnection: Upgrade\r\n", "Connection: keep-alive\r\nConnection: x-hop, upgrade\r\n", "Connection: Keep-Alive\r\nConnection: close-notify\r\n"]));
+        }
         match k {
             BodyKind::None => {
                 head.push_str("\r\n");
